@@ -105,7 +105,23 @@ func c19Run(r *core.Run) {
 	// (0 quote, 1 roots, 2 options, 3 policy, 4 network, 5 config shape), so that runs reach the
 	// late stages of the tool (policy evaluation, exit 0) instead of dying at the first gate.
 	calm, focus := t.Bool(), t.Draw(6)
-	allow := func(dim int) bool { return !calm || dim == focus }
+	// policy-focused calm runs come in two kinds: any number of policy expectations may fail, or (half of them)
+	// faults are allowed in ONE tape-chosen section of the policy only (0 exact-match fields, 1 minimum SVNs,
+	// 2 minimum TEE TCB SVN, 3 any_mr_td, 4 RTMRs), so that one unmet expectation decides the exit status alone
+	singleSection := -1
+	if calm && focus == 3 && t.Bool() {
+		singleSection = t.Draw(5)
+	}
+	section := -1 // the policy section being generated
+	allow := func(dim int) bool {
+		if calm && dim != focus {
+			return false
+		}
+		if dim == 3 && singleSection >= 0 && section != singleSection {
+			return false
+		}
+		return true
+	}
 
 	// ---- the quote
 	q := w.Quote.Clone()
@@ -333,6 +349,7 @@ func c19Run(r *core.Run) {
 	}
 	var recs []fieldRec
 	flagMalformed := ""
+	section = 0
 	for _, f := range c19Fields {
 		cs, fs := fAbsent, fAbsent
 		if useConfig && t.Chance(1, 3) {
@@ -390,6 +407,7 @@ func c19Run(r *core.Run) {
 			}
 		}
 	}
+	section = 1
 	// minimum SVNs: config value (header_policy) and flag value
 	qeSvn := int(binary.LittleEndian.Uint16(w.Quote.QeSvn[:]))
 	pceSvn := int(binary.LittleEndian.Uint16(w.Quote.PceSvn[:]))
@@ -476,6 +494,7 @@ func c19Run(r *core.Run) {
 	}
 	svn("minimum_qe_svn", qeSvn, func(v uint32) { policy.HeaderPolicy.MinimumQeSvn = v })
 	svn("minimum_pce_svn", pceSvn, func(v uint32) { policy.HeaderPolicy.MinimumPceSvn = v })
+	section = 2
 	// minimum TEE TCB SVN (config or flag) and RTMRs (flag)
 	teeState, teeInConfig := fAbsent, false
 	if t.Chance(1, 4) {
@@ -507,9 +526,10 @@ func c19Run(r *core.Run) {
 		}
 		note("minimum_tee_tcb_svn %s in-config=%v", fStateNames[teeState], teeInConfig)
 	}
+	section = 3
 	// any_mr_td (config only): an allow-list next to, and independent of, the exact mr_td expectation
 	anyState := fAbsent
-	if useConfig && t.Chance(1, 4) {
+	if useConfig && (t.Chance(1, 4) || singleSection == 3) {
 		anyState = 1 + t.Draw(2)
 		if !allow(3) {
 			anyState = fMatch
@@ -526,6 +546,7 @@ func c19Run(r *core.Run) {
 		policy.TdQuoteBodyPolicy.AnyMrTd = list
 		note("any_mr_td %s in-config", fStateNames[anyState])
 	}
+	section = 4
 	rtmrsBad := false
 	if t.Chance(1, 5) {
 		var hexes []string
